@@ -1,6 +1,6 @@
 """C08 — invariance under rigid motions: only the longitude-alias clause (L vs L +- 360 degrees) is decided."""
 from .. import facts, run
-from ..rules import dep, footprint
+from ..rules import dep, footprint, kernels
 
 
 def main(tier):
@@ -11,8 +11,10 @@ def main(tier):
     dep.alias_callers(P, rep)
     footprint.alias_sites(P, rep)
     footprint.ridge_alias_twins(P, rep)
+    kernels.point_kernels(P, rep)
     rep.assumptions.append("translation / rotation invariance in Cartesian worlds and longitude-offset invariance are statements about real "
-                           "arithmetic in every kernel: NOT decided (DESIGN.md §4 C08); only the 'L vs L+-360' clause is claimed")
+                           "arithmetic in every kernel: decided only for the distance kernels of Point (closed forms that are invariant by inspection of "
+                           "the formula); otherwise only the 'L vs L+-360' clause is claimed")
     rep.explanation = ("Longitude-alias discipline: shape and exclusive use of the alias wrappers, presence of the 2*pi alias in every "
                        "function of the frozen list of alias-aware sites, and symmetry of the point/alias twin blocks in the ridge-distance "
                        "routine.")
